@@ -69,6 +69,8 @@ func (hp histPlan) history(c *core.Ctx) gen.History {
 
 // histScenario is the replayable form of a history case.
 type histScenario struct {
+	// Forest, if set, is run first (blocks, undo, remember, prune); History.Blocks then continue from its end state.
+	Forest  *fScenario  `json:"forest,omitempty"`
 	History gen.History `json:"history"`
 	Cfgs    []InstCfg   `json:"cfgs,omitempty"`
 	Extra   any         `json:"extra,omitempty"`
